@@ -181,7 +181,142 @@ MUTANTS = [
     M("deregister-only-successful", OFF,
       "        del self._active_uploads[storage_index]\n",
       "        if size:\n            del self._active_uploads[storage_index]\n", "C44.10"),
+    # -- gaps found by the mutation sweep
+    # C44.4: one fetch chain per fetcher
+    M("start-flag-never-set", OFF,
+      "        self._started = True\n        started = time.time()\n", "        started = time.time()\n", "C44.4"),
+    M("start-flag-test-negated", OFF,
+      "        if self._started:\n            return\n", "        if not self._started:\n            return\n", "C44.4"),
+    M("start-bypass-returns-without-chain", OFF,
+      "                     level=log.UNUSUAL)\n            d = defer.succeed(None)\n        else:\n            # first, find out",
+      "                     level=log.UNUSUAL)\n            return\n        else:\n            # first, find out", "C44.4"),
+    M("start-bypass-chain-source-dropped", OFF,
+      "                     level=log.UNUSUAL)\n            d = defer.succeed(None)\n        else:\n            # first, find out",
+      "                     level=log.UNUSUAL)\n        else:\n            # first, find out", "C44.4"),
+    # C44.7: one upload helper per storage index; present verdict only with a UEB
+    M("race-test-flipped", OFF,
+      "        if storage_index in self._active_uploads:\n            self.log(\"upload is currently active\", parent=lp)\n"
+      "            uh = self._active_uploads[storage_index]\n        else:",
+      "        if storage_index not in self._active_uploads:\n            self.log(\"upload is currently active\", parent=lp)\n"
+      "            uh = self._active_uploads[storage_index]\n        else:", "C44.7"),
+    M("race-recheck-removed", OFF,
+      "        if storage_index in self._active_uploads:\n            self.log(\"upload is currently active\", parent=lp)\n"
+      "            uh = self._active_uploads[storage_index]\n        else:\n"
+      "            self.log(\"creating new upload helper\", parent=lp)\n"
+      "            uh = self._make_chk_upload_helper(storage_index, lp)\n"
+      "            self._active_uploads[storage_index] = uh\n            self._add_upload(uh)\n",
+      "        self.log(\"creating new upload helper\", parent=lp)\n"
+      "        uh = self._make_chk_upload_helper(storage_index, lp)\n"
+      "        self._active_uploads[storage_index] = uh\n        self._add_upload(uh)\n", "C44.7"),
+    M("upload-helper-registered-only-with-history", OFF,
+      "            self._active_uploads[storage_index] = uh\n            self._add_upload(uh)\n",
+      "            if self._history:\n                self._active_uploads[storage_index] = uh\n            self._add_upload(uh)\n",
+      "C44.7"),
+    M("present-verdict-ueb-test-negated", OFF,
+      "        if self._ueb_data:\n            found = len(self._found_shares)",
+      "        if not self._ueb_data:\n            found = len(self._found_shares)", "C44.7"),
+    # C44.8: the offset advance is a callback of the read
+    M("client-offset-callback-dropped", UP,
+      "            return strings\n        d.addCallback(_read)\n        return d\n\n    def remote_read_encrypted",
+      "            return strings\n        return d\n\n    def remote_read_encrypted", "C44.8"),
+    M("present-file-results-dropped", OFF,
+      "                hur.pushed_shares = 0\n                return hur\n", "                hur.pushed_shares = 0\n                return None\n",
+      "C44.7"),
+    M("present-file-results-not-returned", OFF,
+      "                hur.pushed_shares = 0\n                return hur\n", "                hur.pushed_shares = 0\n", "C44.7"),
+    M("client-skip-advances-by-result-size", UP,
+      "        def _read(strings):\n            if hash_only:\n                self._offset += length\n",
+      "        def _read(strings):\n            if not hash_only:\n                self._offset += length\n", "C44.8"),
+    M("client-always-advances-by-result-size", UP,
+      "            if hash_only:\n                self._offset += length\n            else:\n"
+      "                size = sum([len(data) for data in strings])\n                self._offset += size\n",
+      "            size = sum([len(data) for data in strings])\n            self._offset += size\n", "C44.8"),
+    M("upload-helper-forgets-storage-index", OFF,
+      "        upload.CHKUploader.__init__(self, storage_broker, secret_holder)\n        self._storage_index = storage_index\n",
+      "        upload.CHKUploader.__init__(self, storage_broker, secret_holder)\n", "C44.10"),
+    M("upload-helper-keeps-printable-storage-index", OFF,
+      "        upload.CHKUploader.__init__(self, storage_broker, secret_holder)\n        self._storage_index = storage_index\n",
+      "        upload.CHKUploader.__init__(self, storage_broker, secret_holder)\n        self._storage_index = si_b2a(storage_index)\n",
+      "C44.10"),
+    # C44.10: per-run attribute table (was cached across runs): _f no longer initialised
+    M("fetcher-file-attribute-not-initialised", OFF,
+      "        self._started = False\n        self._f = None\n", "        self._started = False\n", "C44.10"),
     # -- benign
+    M("benign-start-flag-set-later", OFF,
+      "        self._started = True\n        started = time.time()\n", "        started = time.time()\n        self._started = True\n", None),
+    M("benign-start-flag-is-true", OFF,
+      "        if self._started:\n            return\n", "        if self._started is True:\n            return\n", None),
+    M("benign-start-flag-guard-inverted", OFF,
+      "        if self._started:\n            return\n        self._started = True\n        started = time.time()\n",
+      "        if not self._started:\n            self._started = True\n        else:\n            return\n        started = time.time()\n",
+      None),
+    M("benign-race-test-by-get", OFF,
+      "        if storage_index in self._active_uploads:\n            self.log(\"upload is currently active\", parent=lp)\n"
+      "            uh = self._active_uploads[storage_index]\n        else:",
+      "        uh = self._active_uploads.get(storage_index)\n        if uh is not None:\n"
+      "            self.log(\"upload is currently active\", parent=lp)\n        else:", None),
+    M("benign-race-branches-swapped", OFF,
+      "        if storage_index in self._active_uploads:\n            self.log(\"upload is currently active\", parent=lp)\n"
+      "            uh = self._active_uploads[storage_index]\n        else:\n"
+      "            self.log(\"creating new upload helper\", parent=lp)\n"
+      "            uh = self._make_chk_upload_helper(storage_index, lp)\n"
+      "            self._active_uploads[storage_index] = uh\n            self._add_upload(uh)\n",
+      "        if not (storage_index in self._active_uploads):\n"
+      "            self._active_uploads[storage_index] = self._make_chk_upload_helper(storage_index, lp)\n"
+      "            uh = self._active_uploads[storage_index]\n"
+      "            self._add_upload(uh)\n        else:\n            uh = self._active_uploads[storage_index]\n", None),
+    M("benign-present-verdict-early-return", OFF,
+      "        if self._ueb_data:\n            found = len(self._found_shares)\n"
+      "            total = self._ueb_data['total_shares']\n"
+      "            self.log(format=\"got %(found)d shares of %(total)d\",\n"
+      "                     found=found, total=total, level=log.NOISY)\n"
+      "            if found < total:\n",
+      "        if not self._ueb_data:\n            return False\n        else:\n            found = len(self._found_shares)\n"
+      "            total = self._ueb_data['total_shares']\n"
+      "            if found < total:\n", None),
+    M("benign-present-verdict-hash-is-not-none", OFF,
+      "        if self._ueb_data:\n            found = len(self._found_shares)",
+      "        if self._ueb_hash is not None:\n            found = len(self._found_shares)", None),
+    M("benign-client-offset-callback-renamed", UP,
+      "        d = self._eu.read_encrypted(length, hash_only)\n        def _read(strings):\n            if hash_only:\n"
+      "                self._offset += length\n",
+      "        rd = self._eu.read_encrypted(length, hash_only)\n        def _advance(strings):\n            if hash_only:\n"
+      "                self._offset += length\n", None,
+      edits=[(UP, "                self._offset += size\n            return strings\n        d.addCallback(_read)\n        return d\n",
+              "                self._offset += size\n            return strings\n        rd.addCallback(_advance)\n        return rd\n")]),
+    M("benign-present-file-early-none", OFF,
+      "            if res:\n                (sharemap, ueb_data, ueb_hash) = res\n",
+      "            if not res:\n                return None\n            else:\n                (sharemap, ueb_data, ueb_hash) = res\n", None),
+    M("benign-present-file-result-via-local", OFF,
+      "                hur.pushed_shares = 0\n                return hur\n",
+      "                hur.pushed_shares = 0\n                answer = hur\n                return answer\n", None),
+    M("benign-client-advance-branches-swapped", UP,
+      "            if hash_only:\n                self._offset += length\n            else:\n"
+      "                size = sum([len(data) for data in strings])\n                self._offset += size\n",
+      "            if not hash_only:\n                size = sum([len(data) for data in strings])\n                self._offset += size\n"
+      "            else:\n                skipped = length\n                self._offset += skipped\n", None),
+    M("benign-upload-helper-storage-index-set-later", OFF,
+      "        upload.CHKUploader.__init__(self, storage_broker, secret_holder)\n        self._storage_index = storage_index\n"
+      "        self._helper = helper\n",
+      "        upload.CHKUploader.__init__(self, storage_broker, secret_holder)\n        self._helper = helper\n"
+      "        si = storage_index\n        self._storage_index = si\n", None),
+    # returned values handed through a local (found by the benign-rewrite sweep)
+    M("benign-ret-via-local-start-reading", OFF,
+      "        # self._f\n        return d\n", "        # self._f\n        result = d\n        return result\n", None),
+    M("benign-ret-via-local-present-verdict", OFF,
+      "            return (self._sharemap, self._ueb_data, self._ueb_hash)\n",
+      "            verdict = (self._sharemap, self._ueb_data, self._ueb_hash)\n            return verdict\n", None),
+    M("benign-ret-via-local-readcap", UP,
+      "                    d3.addCallback(put_readcap_into_results)\n                    return d3",
+      "                    d3.addCallback(put_readcap_into_results)\n                    rv = d3\n                    return rv", None),
+    M("benign-ret-via-local-client-read", UP,
+      "            return self._read_encrypted(length, hash_only=False)\n",
+      "            dd = self._read_encrypted(length, hash_only=False)\n            return dd\n", None),
+    M("benign-ret-via-local-fetch-done", OFF,
+      "            return True # all done\n", "            finished = True\n            return finished\n", None),
+    M("benign-ret-via-local-not-present", OFF,
+      "                hur.pushed_shares = 0\n                return hur\n            return None\n",
+      "                hur.pushed_shares = 0\n                return hur\n            nothing = None\n            return nothing\n", None),
     M("benign-needed-eq-zero", OFF, "        if fetch_size == 0:\n", "        if needed == 0:\n", None),
     M("benign-have-plus-form", OFF,
       "                self._have += len(data)\n", "                self._have = self._have + len(data)\n", None),
